@@ -1,25 +1,29 @@
 import SLModel.Core.TopK
 import SLModel.Lemmas.TopKBridge
 import SLModel.Lemmas.WandLoop
+import SLModel.Lemmas.WandLoopB
 import SLModel.Lemmas.BTop
 /-!
 # C09 — pruned top-k (wand, bmw) equals exhaustive top-k (bm25)
 
-Model: `SL.TK` (`Core/TopK.lean`) — `brute` (`brute_force`), `wandLoop` (`wand_loop`, with the
-plain bound `blk = false` and the block-max bound of the code `blk = true`), `wandRule` (the
-per-document decision rule), `search` (per-segment top-(limit+1), merge, best `limit`).  Scores
-are `Nat` (fixed point); the driver (`Drv/C09`) runs exactly these definitions on the numbers
-produced by `Core/Bm25` + `Core/Quant` and evaluates the decidable hypotheses `SegIn.wf`,
-`boundsOk`, `blockBoundsOk` on every generated case.
+Model: `SL.TK` (`Core/TopK.lean`) — `brute` (`brute_force`), `wandLoop` (`wand_loop` as it is
+since /repo efe566e and 355106c: pivot selection with the term-wide bounds, `blk = true` (bmw)
+drops a candidate whose cursors' block maxima cannot reach the threshold, `hook = true` switches
+pruning off), `pruneRule` (the same as a per-document decision rule), `search` (per-segment
+top-(limit+1), merge, best `limit`), and the `legacy…` loop of the code before the two repairs.
+Scores are `Nat` (fixed point); the driver (`Drv/C09`) runs exactly these definitions on the
+numbers produced by `Core/Bm25` + `Core/Quant` and evaluates the decidable premise `segOk`
+(`SegIn.wf`, `Term.blocksOk`, `boundsOk`, `blockBoundsOk`) on every generated case.
 
-**Full statement (false of the unchanged code — see the negative witnesses):**
+**Statement proved (`search_pruned_eq_bm25`):**
 ```
-∀ (st : Strategy) (k limit : Nat) (segs : List SegIn), 0 < k → (∀ s ∈ segs, s.wf = true) →
+∀ (st : Strategy) (k limit : Nat) (segs : List SegIn), 0 < k → (∀ s ∈ segs, segOk st s = true) →
   search st k limit segs = search .bm25 k limit segs
 ```
-What holds and is proved: the statement for `st = .wand` under `boundsOk` (every accepted final
-score is dominated by the sum of the term bounds — true for sums, boosts, dis_max; false when a
-score hook rewrites the score), the repaired block-max rule, and pruning switched off.
+`segOk` asks for what sound pruning needs and nothing else: well-formed postings / block
+metadata and, unless a score hook switches pruning off, bounds that dominate the accepted scores
+(term-wide bounds; for bmw also the maxima of the blocks containing the document).  Before the
+repairs the statement was false (`legacy_…` witnesses below, kernel-checked).
 -/
 set_option linter.unusedSimpArgs false
 namespace SL.TK
@@ -41,33 +45,88 @@ theorem wandRule_eq_brute (k : Nat) (hk : 0 < k) (s : SegIn) (hwf : s.wf = true)
   rw [wandRule_eq_best k hk s.sc _ (boundsOk_spec s hb) s.docs hdocs, s.hits_eq hdocs]
   exact best_perm k (List.reverse_perm _)
 
-/-- **`wand_loop` = `brute_force`** on one segment: cursor loop, pivot selection, `advance_to`
-and the conditional heap insertion together compute the exhaustive top-k. -/
-theorem wandLoop_eq_brute (k : Nat) (hk : 0 < k) (s : SegIn) (hwf : s.wf = true)
-    (hb : boundsOk s = true) : wandLoop k false s.sc s.terms = brute k s := by
-  rw [wandLoop_eq_wandRule k s hwf, wandRule_eq_brute k hk s hwf hb]
+theorem SegIn.docs_pairwise (s : SegIn) (hwf : s.wf = true) : s.docs.Pairwise (· < ·) := by
+  unfold SegIn.wf at hwf
+  simp only [Bool.and_eq_true] at hwf
+  exact incr_pairwise _ hwf.1.1.1
 
-theorem runSeg_wand_eq_bm25 (k : Nat) (hk : 0 < k) (s : SegIn)
-    (h : s.scan = true ∨ (s.wf = true ∧ boundsOk s = true)) :
-    runSeg .wand k s = runSeg .bm25 k s := by
+/-- **The repaired decision rule is exhaustive**: with a score hook nothing is skipped; without
+one a candidate is skipped only below a bound that dominates its score. -/
+theorem pruneRule_eq_brute (k : Nat) (hk : 0 < k) (blk : Bool) (s : SegIn) (hwf : s.wf = true)
+    (h : s.hook = true ∨ (boundsOk s = true ∧ (blk = true → blockBoundsOk s = true))) :
+    pruneRule k blk s.hook s.sc (ubsum s.terms) (blockSum s.terms) s.docs = brute k s := by
+  have hdocs := s.docs_pairwise hwf
+  unfold pruneRule
+  rw [runDocsO_eq_best k hk s.sc _ ?_ s.docs hdocs, s.hits_eq hdocs]
+  · exact best_perm k (List.reverse_perm _)
+  · intro H d v hlen hskip hsc
+    rcases h with hh | ⟨hb, hbb⟩
+    · simp [pruneSkip, pivotTheta, hh] at hskip
+    · have hθ : pivotTheta k s.hook H ≤ theta k H := by
+        unfold pivotTheta; split <;> omega
+      have hlt : v < theta k H := by
+        simp only [pruneSkip, Bool.or_eq_true, Bool.and_eq_true, decide_eq_true_eq] at hskip
+        rcases hskip with h1 | ⟨hblk, h2⟩
+        · have := boundsOk_spec s hb d v hsc; omega
+        · have := blockBoundsOk_spec s (hbb hblk) d v hsc; omega
+      refine ⟨?_, hlt⟩
+      have := SL.TopK.theta_pos_full k H hlen (by rw [← theta_eq]; omega)
+      exact this
+
+/-- **`wand_loop` = `brute_force`** on one segment, for wand and bmw, with and without a score
+hook: cursor loop, pivot selection, `advance_to`/`skip_to_block`, the block check and the
+conditional heap insertion together compute the exhaustive top-k. -/
+theorem wandLoop_eq_brute (k : Nat) (hk : 0 < k) (blk : Bool) (s : SegIn) (hwf : s.wf = true)
+    (hbl : blk = true → s.terms.all Term.blocksOk = true)
+    (h : s.hook = true ∨ (boundsOk s = true ∧ (blk = true → blockBoundsOk s = true))) :
+    wandLoop k blk s.hook s.sc s.terms = brute k s := by
+  rw [wandLoop_eq_pruneRule k blk s hwf hbl, pruneRule_eq_brute k hk blk s hwf h]
+
+theorem runSeg_eq_bm25 (st : Strategy) (k : Nat) (hk : 0 < k) (s : SegIn)
+    (h : segOk st s = true) : runSeg st k s = runSeg .bm25 k s := by
   unfold runSeg
   by_cases hs : s.scan = true
   · simp [hs]
-  · rcases h with h | h
-    · exact absurd h hs
-    · simp only [hs]
-      exact wandLoop_eq_brute k hk s h.1 h.2
+  · simp only [hs]
+    unfold segOk at h
+    simp only [hs, Bool.false_or, Bool.and_eq_true, Bool.or_eq_true] at h
+    obtain ⟨⟨hwf, hbl⟩, hb⟩ := h
+    cases st with
+    | bm25 => rfl
+    | wand =>
+      apply wandLoop_eq_brute k hk false s hwf (by intro h; cases h)
+      rcases hb with hb | hb
+      · exact Or.inl hb
+      · exact Or.inr ⟨hb.1, by intro h; cases h⟩
+    | bmw =>
+      have hbl' : s.terms.all Term.blocksOk = true := by
+        rcases hbl with hbl | hbl
+        · simp at hbl
+        · exact hbl
+      apply wandLoop_eq_brute k hk true s hwf (fun _ => hbl')
+      rcases hb with hb | hb
+      · exact Or.inl hb
+      · refine Or.inr ⟨hb.1, fun _ => ?_⟩
+        rcases hb.2 with h2 | h2
+        · simp at h2
+        · exact h2
 
-/-- **C09 for `execution = wand`, hook-free part** (`_partial`: the hypothesis `boundsOk`
-excludes exactly the score-hook defect; `bmw` is excluded by the strategy).  Every segment is
-either ranked by `scan_segment` (no scored term) or satisfies the decidable hypotheses. -/
-theorem search_wand_eq_bm25_partial (k limit : Nat) (hk : 0 < k) (segs : List SegIn)
-    (h : ∀ s ∈ segs, s.scan = true ∨ (s.wf = true ∧ boundsOk s = true)) :
-    search .wand k limit segs = search .bm25 k limit segs := by
+/-- **C09**: every execution strategy returns the hits of `bm25`, for any number of segments,
+any `k > 0` and limit, with and without score hooks — under the decidable premise `segOk`
+(sound bounds, well-formed postings and block metadata). -/
+theorem search_pruned_eq_bm25 (st : Strategy) (k limit : Nat) (hk : 0 < k) (segs : List SegIn)
+    (h : ∀ s ∈ segs, segOk st s = true) :
+    search st k limit segs = search .bm25 k limit segs := by
   unfold search
-  have : segs.map (runSeg .wand k) = segs.map (runSeg .bm25 k) :=
-    List.map_congr_left fun s hs => runSeg_wand_eq_bm25 k hk s (h s hs)
+  have : segs.map (runSeg st k) = segs.map (runSeg .bm25 k) :=
+    List.map_congr_left fun s hs => runSeg_eq_bm25 st k hk s (h s hs)
   rw [this]
+
+/-- under a score hook nothing is pruned: no premise on the scores at all -/
+theorem hook_no_pruning (k : Nat) (hk : 0 < k) (blk : Bool) (s : SegIn) (hwf : s.wf = true)
+    (hbl : blk = true → s.terms.all Term.blocksOk = true) (hh : s.hook = true) :
+    wandLoop k blk s.hook s.sc s.terms = brute k s :=
+  wandLoop_eq_brute k hk blk s hwf hbl (Or.inl hh)
 
 /-- **Repaired block-max rule**: with the bound of the block that *contains* the document the
 decision rule is exhaustive again. -/
@@ -94,8 +153,9 @@ theorem noPrune_eq_brute (k : Nat) (hk : 0 < k) (s : SegIn) (hwf : s.wf = true) 
 /-- the score-hook hypothesis in the form of the design: `adjust(score) ≤ bound` -/
 theorem hook_ok_of_adjust_le (k : Nat) (hk : 0 < k) (s : SegIn) (hwf : s.wf = true)
     (h : ∀ d v, s.sc d = some v → v ≤ ubsum s.terms d) :
-    wandLoop k false s.sc s.terms = brute k s := by
-  apply wandLoop_eq_brute k hk s hwf
+    wandLoop k false s.hook s.sc s.terms = brute k s := by
+  apply wandLoop_eq_brute k hk false s hwf (by intro h; cases h)
+  refine Or.inr ⟨?_, by intro h; cases h⟩
   unfold boundsOk
   rw [List.all_eq_true]
   intro x hx
@@ -148,22 +208,64 @@ theorem disMax_le_sum (mx sm num den : Nat) (hmx : mx ≤ sm) (hnd : num ≤ den
     exact h1
   omega
 
-/-- **Classical WAND statement**: when every accepted final score is at most the plain sum of
-the contributions (sums, boosts, dis_max) and every posting respects its term bound, `wand_loop`
-returns the exhaustive top-k. -/
-theorem wandLoop_eq_brute_of_validBounds (k : Nat) (hk : 0 < k) (s : SegIn) (hwf : s.wf = true)
-    (hv : validBounds s.terms = true)
+/-- what the block check of bmw needs: the recorded maximum of a posting's own block dominates
+the posting.  Then the plain sum of the contributions is at most `blockSum`. -/
+theorem contrib_le_blockBound (t : Term) (d : Nat) : ∀ (l : Posts) (i : Nat),
+    validBlocksFrom t i l = true →
+    (match l.find? (fun p => p.1 == d) with | some p => p.2 | none => 0) ≤
+      (match Term.indexOf.go d l i with | some j => t.blockUb.getD (j / t.bs) 0 | none => 0) := by
+  intro l
+  induction l with
+  | nil => intro i _; simp [Term.indexOf.go]
+  | cons a as ih =>
+    intro i h
+    simp only [validBlocksFrom, Bool.and_eq_true, decide_eq_true_eq] at h
+    by_cases ha : (a.1 == d) = true
+    · simp only [List.find?_cons, ha, Term.indexOf.go, if_true]
+      exact h.1
+    · have ha' : (a.1 == d) = false := by simpa using ha
+      simp only [List.find?_cons, ha', Term.indexOf.go]
+      exact ih (i + 1) h.2
+
+theorem sumContrib_le_blockSum (ts : List Term) (h : validBlockBounds ts = true) (d : Nat) :
+    sumContrib ts d ≤ blockSum ts d := by
+  induction ts with
+  | nil => simp [sumContrib, blockSum]
+  | cons t r ih =>
+    unfold validBlockBounds at h
+    rw [List.all_cons, Bool.and_eq_true] at h
+    have ihr := ih h.2
+    unfold sumContrib blockSum
+    have ht : t.contrib d ≤ t.blockBoundOf d := by
+      unfold Term.contrib Term.blockBoundOf Term.indexOf
+      exact contrib_le_blockBound t d t.posts 0 h.1
+    omega
+
+/-- **Classical WAND / block-max WAND statement**: when every accepted final score is at most the
+plain sum of the contributions (sums, boosts, dis_max), every posting respects its term bound
+and (bmw) the maximum of its own block, `wand_loop` returns the exhaustive top-k. -/
+theorem wandLoop_eq_brute_of_validBounds (k : Nat) (hk : 0 < k) (blk : Bool) (s : SegIn)
+    (hwf : s.wf = true) (hbl : blk = true → s.terms.all Term.blocksOk = true)
+    (hv : validBounds s.terms = true) (hvb : blk = true → validBlockBounds s.terms = true)
     (hs : ∀ d v, s.sc d = some v → v ≤ sumContrib s.terms d) :
-    wandLoop k false s.sc s.terms = brute k s := by
-  rw [wandLoop_eq_wandRule k s hwf]
-  have hdocs : s.docs.Pairwise (· < ·) := by
-    unfold SegIn.wf at hwf
-    simp only [Bool.and_eq_true] at hwf
-    exact incr_pairwise _ hwf.1.1.1
-  rw [wandRule_eq_best k hk s.sc _
-    (fun d v h => Nat.le_trans (hs d v h) (sumContrib_le_ubsum s.terms hv d)) s.docs hdocs,
-    s.hits_eq hdocs]
-  exact best_perm k (List.reverse_perm _)
+    wandLoop k blk s.hook s.sc s.terms = brute k s := by
+  rw [wandLoop_eq_pruneRule k blk s hwf hbl]
+  have hdocs := s.docs_pairwise hwf
+  unfold pruneRule
+  rw [runDocsO_eq_best k hk s.sc _ ?_ s.docs hdocs, s.hits_eq hdocs]
+  · exact best_perm k (List.reverse_perm _)
+  · intro H d v hlen hskip hsc
+    have hθ : pivotTheta k s.hook H ≤ theta k H := by
+      unfold pivotTheta; split <;> omega
+    have hv' := hs d v hsc
+    have hlt : v < theta k H := by
+      simp only [pruneSkip, Bool.or_eq_true, Bool.and_eq_true, decide_eq_true_eq] at hskip
+      rcases hskip with h1 | ⟨hblk, h2⟩
+      · have := sumContrib_le_ubsum s.terms hv d; omega
+      · have := sumContrib_le_blockSum s.terms (hvb hblk) d; omega
+    refine ⟨?_, hlt⟩
+    have := SL.TopK.theta_pos_full k H hlen (by rw [← theta_eq]; omega)
+    exact this
 
 /-! ## per-segment truncation and merge -/
 
@@ -231,15 +333,15 @@ theorem search_bm25_eq_global_best (k limit : Nat) (h : limit ≤ k) (segs : Lis
     simp [runSeg, brute]
   rw [this, merge_topk k limit h]
 
-/-- **C09, `wand`, end to end** (`_partial`: `boundsOk` excludes the score-hook defect): the hits
-of `execution = wand` are the `limit` best accepted candidates of the whole index -/
-theorem search_wand_eq_global_best_partial (k limit : Nat) (hk : 0 < k) (h : limit ≤ k)
-    (segs : List SegIn)
-    (hs : ∀ s ∈ segs, s.scan = true ∨ (s.wf = true ∧ boundsOk s = true)) :
-    search .wand k limit segs = best limit (mergeSegs 0 (segs.map SegIn.hits)) := by
-  rw [search_wand_eq_bm25_partial k limit hk segs hs, search_bm25_eq_global_best k limit h]
+/-- **C09 end to end**: the hits of every strategy are the `limit` best accepted candidates of the
+whole index -/
+theorem search_pruned_eq_global_best (st : Strategy) (k limit : Nat) (hk : 0 < k) (h : limit ≤ k)
+    (segs : List SegIn) (hs : ∀ s ∈ segs, segOk st s = true) :
+    search st k limit segs = best limit (mergeSegs 0 (segs.map SegIn.hits)) := by
+  rw [search_pruned_eq_bm25 st k limit hk segs hs, search_bm25_eq_global_best k limit h]
 
-/-! ## negative witnesses (kernel-checked by `decide`, replayed on the code by `corpus/C09`) -/
+/-! ## legacy negative witnesses (kernel-checked by `decide`; `corpus/C09` holds the same inputs
+as regression cases for the code) — the loop before /repo 355106c and efe566e -/
 
 /-- one term, `bmw_block_size = 1`, contributions 5, 5, 1, 20; `limit = 1` (`k = 2`) -/
 def bmwTerm : Term :=
@@ -248,13 +350,12 @@ def bmwTerm : Term :=
 def bmwSeg : SegIn :=
   { terms := [bmwTerm], fin := [(0, some 5), (1, some 5), (2, some 1), (3, some 20)] }
 
-/-- **The block bound of the code is not a bound**: the segment is well formed, all bounds
-dominate the scores (even per block), yet `bmw` loses the best document — the cursor stands in
-a block whose maximum is below the threshold and the loop stops. -/
-theorem bmw_code_bound_unsound :
-    bmwSeg.wf = true ∧ boundsOk bmwSeg = true ∧ blockBoundsOk bmwSeg = true ∧
-      search .bmw 2 1 [bmwSeg] = [(5, 0)] ∧ search .bm25 2 1 [bmwSeg] = [(20, 3)] ∧
-      search .bmw 2 1 [bmwSeg] ≠ search .bm25 2 1 [bmwSeg] := by decide
+/-- **legacy: the block bound of the cursor's block is not a bound** — the segment satisfies every
+premise (`segOk .bmw`), yet the old loop lost the best document; the repaired loop does not -/
+theorem legacy_bmw_code_bound_unsound :
+    segOk .bmw bmwSeg = true ∧
+      legacySearch .bmw 2 1 [bmwSeg] = [(5, 0)] ∧ search .bm25 2 1 [bmwSeg] = [(20, 3)] ∧
+      search .bmw 2 1 [bmwSeg] = [(20, 3)] := by decide
 
 /-- two terms, block size 1 -/
 def bmwA : Term :=
@@ -267,29 +368,35 @@ def bmwSeg2 : SegIn :=
   { terms := [bmwA, bmwB],
     fin := [(0, some 8), (1, some 8), (2, some 1), (3, some 13), (4, some 1)] }
 
-theorem bmw_code_bound_unsound_two_terms :
-    bmwSeg2.wf = true ∧ boundsOk bmwSeg2 = true ∧ blockBoundsOk bmwSeg2 = true ∧
-      search .bmw 2 1 [bmwSeg2] ≠ search .bm25 2 1 [bmwSeg2] ∧
-      search .wand 2 1 [bmwSeg2] = search .bm25 2 1 [bmwSeg2] := by decide
+theorem legacy_bmw_code_bound_unsound_two_terms :
+    segOk .bmw bmwSeg2 = true ∧
+      legacySearch .bmw 2 1 [bmwSeg2] ≠ search .bm25 2 1 [bmwSeg2] ∧
+      legacySearch .wand 2 1 [bmwSeg2] = search .bm25 2 1 [bmwSeg2] ∧
+      search .bmw 2 1 [bmwSeg2] = search .bm25 2 1 [bmwSeg2] := by decide
 
 /-- a multiplying score hook: BM25 contributions 3, 1, 1 with term bound 4; final scores
 `3·10`, `1·2`, `1·50` -/
 def hookTerm : Term :=
   { posts := [(0, 3), (1, 1), (2, 1)], ub := 4, bs := 128, blockUb := [4], blockMaxDoc := [2] }
 def hookSeg : SegIn :=
-  { terms := [hookTerm], fin := [(0, some 30), (1, some 2), (2, some 50)] }
+  { terms := [hookTerm], fin := [(0, some 30), (1, some 2), (2, some 50)], hook := true }
 
-/-- **Pruning with BM25 bounds under a score hook is unsound** (`boundsOk` is false here, which
-is exactly what `search_wand_eq_bm25_partial` needs) -/
-theorem hook_multiply_unsound :
-    hookSeg.wf = true ∧ boundsOk hookSeg = false ∧
-      search .wand 1 1 [hookSeg] = [(30, 0)] ∧ search .bm25 1 1 [hookSeg] = [(50, 2)] := by
+/-- **legacy: pruning with BM25 bounds under a score hook was unsound**; the repaired loop does
+not prune under a hook (`segOk` holds although `boundsOk` is false) -/
+theorem legacy_hook_multiply_unsound :
+    segOk .wand hookSeg = true ∧ segOk .bmw hookSeg = true ∧ boundsOk hookSeg = false ∧
+      legacySearch .wand 1 1 [hookSeg] = [(30, 0)] ∧ search .bm25 1 1 [hookSeg] = [(50, 2)] ∧
+      search .wand 1 1 [hookSeg] = [(50, 2)] ∧ search .bmw 1 1 [hookSeg] = [(50, 2)] := by
   decide
+
+/-- the premise is not vacuous the other way either: without the hook flag (i.e. if the code
+pruned) the same scores violate `segOk` -/
+example : segOk .wand { hookSeg with hook := false } = false := by decide
 
 /-! ## non-vacuity -/
 
-/-- the hypotheses of the positive theorems are satisfiable by a segment on which pruning really
-happens (document 2 is never scored by `wand`: bound 11 < threshold 12) -/
+/-- the premises are satisfiable by a segment on which pruning really happens: document 2 is
+never scored by `wand` (term bounds 11 < threshold 12) -/
 def okA : Term :=
   { posts := [(0, 9), (1, 8), (2, 2), (3, 10)], ub := 11, bs := 2, blockUb := [10, 11],
     blockMaxDoc := [1, 3] }
@@ -298,11 +405,24 @@ def okB : Term :=
 def okSeg : SegIn :=
   { terms := [okA, okB], fin := [(0, some 14), (1, some 12), (2, some 2), (3, some 11)] }
 
-example : okSeg.wf = true ∧ boundsOk okSeg = true ∧ blockBoundsOk okSeg = true := by decide
-example : wandLoop 2 false okSeg.sc okSeg.terms = [(14, 0), (12, 1)] := by decide
+/-- a segment where the block check fires: after documents 0 and 1 the threshold is 12; document
+2 passes pivot selection (term bounds 20 ≥ 12) but its block maximum 3 does not -/
+def blkT : Term :=
+  { posts := [(0, 14), (1, 12), (2, 2), (3, 20)], ub := 21, bs := 1, blockUb := [15, 13, 3, 21],
+    blockMaxDoc := [0, 1, 2, 3] }
+def blkSeg : SegIn :=
+  { terms := [blkT], fin := [(0, some 14), (1, some 12), (2, some 2), (3, some 20)] }
+
+example : segOk .wand okSeg = true ∧ segOk .bmw okSeg = true := by decide
+example : wandLoop 2 false false okSeg.sc okSeg.terms = [(14, 0), (12, 1)] := by decide
+example : wandLoop 2 true false okSeg.sc okSeg.terms = brute 2 okSeg := by decide
 example : wandRule 2 okSeg.sc (ubsum okSeg.terms) okSeg.docs = brute 2 okSeg := by decide
-example : search .wand 2 1 [okSeg, bmwSeg] = search .bm25 2 1 [okSeg, bmwSeg] :=
-  search_wand_eq_bm25_partial 2 1 (by decide) _ (by decide)
+example : search .bmw 2 1 [okSeg, bmwSeg] = search .bm25 2 1 [okSeg, bmwSeg] :=
+  search_pruned_eq_bm25 .bmw 2 1 (by decide) _ (by decide)
+example : segOk .bmw blkSeg = true ∧
+    pruneSkip 2 true false (ubsum blkSeg.terms) (blockSum blkSeg.terms) [(14, 0), (12, 1)] 2 = true ∧
+    decide (ubsum blkSeg.terms 2 < 12) = false ∧
+    search .bmw 2 1 [blkSeg] = [(20, 3)] := by decide
 example : wandRule 2 bmwSeg.sc (blockSum bmwSeg.terms) bmwSeg.docs = [(20, 3), (5, 0)] := by decide
 example : runDocsO 1 hookSeg.sc (fun _ _ => false) [] hookSeg.docs = [(50, 2)] := by decide
 
